@@ -11,6 +11,7 @@ import Ampverif.Lemmas.C05Unitary
 import Ampverif.Lemmas.C05Tensor
 import Ampverif.Lemmas.C05Model
 import Ampverif.Lemmas.C05Wigner
+import Ampverif.Lemmas.C05Pools
 
 namespace Ampverif.Props.C05
 open Ampverif.Model.C05Spin Ampverif.Model.C05Align
@@ -165,6 +166,40 @@ theorem C05_dpd_invariant_wigner (ang : Angle → ℝ × ℝ × ℝ)
     intensity (wignerD ang) A (flatten specs) env
       = intensity (wignerD ang) A (flatten (noneSpecs states)) env :=
   C05_dpd_invariant (wignerD ang) (wignerD_unitary ang) ref t states specs hids hst h A env
+
+/-! ### the pools of the DPD-aligned amplitude are the reaction's helicity sets -/
+
+/-- For every topology, reference subsystem and list of outer states: the inner sums of the
+DPD skeleton run, state by state, over the helicities that occur in the reaction, and so does the
+outer incoherent sum. The aligned amplitude therefore depends on the helicity sets, not only on
+topology, particles and reference subsystem (the correspondence run drives the real
+`_formulate_aligned_amplitude` through histories of reactions that differ in nothing else). -/
+theorem C05_dpd_pools (ref : ℤ) (t : Tree) (states : List StateInfo) (specs : List Spec)
+    (h : dpdSpecs ref t states = some specs) :
+    (flatten specs).sums = states.map (fun s => (Var.inner 0 s.e, s.observed)) ∧
+    (flatten specs).outer = states.map (fun s => (Var.outer s.e, s.observed)) :=
+  ⟨Ampverif.Lemmas.C05Pools.dpd_sums ref t states specs h,
+   Ampverif.Lemmas.C05Pools.dpd_outer ref t states specs h⟩
+
+/-- Two reactions whose DPD skeletons have the same summed pools — whatever their topologies,
+spins and reference subsystems — have the same helicity sets, state by state. Contrapositive: an
+aligned amplitude formulated for one helicity set is never the aligned amplitude of another. -/
+theorem C05_dpd_helicity_sets_injective (ref ref' : ℤ) (t t' : Tree)
+    (states states' : List StateInfo) (specs specs' : List Spec)
+    (h : dpdSpecs ref t states = some specs) (h' : dpdSpecs ref' t' states' = some specs')
+    (heq : (flatten specs).sums = (flatten specs').sums) :
+    states.map (fun s => (s.e, s.observed)) = states'.map (fun s => (s.e, s.observed)) :=
+  Ampverif.Lemmas.C05Pools.dpd_skeleton_determines_helicity_sets ref ref' t t' states states' specs specs' h h' heq
+
+/-- non-vacuity: J/psi (spin 1) → three pseudoscalars, J/psi from e⁺e⁻ (helicities −1, +1) vs.
+unpolarised (−1, 0, +1): same topology, same particles, same reference — different sums -/
+example :
+    (dpdSpecs 1 (.node 0 (.node 4 (.leaf 1) (.leaf 2)) (.leaf 3))
+        [⟨0, 2, false, [-2, 2]⟩, ⟨1, 0, false, [0]⟩, ⟨2, 0, false, [0]⟩, ⟨3, 0, false, [0]⟩]).map
+        (fun s => (flatten s).sums)
+      ≠ (dpdSpecs 1 (.node 0 (.node 4 (.leaf 1) (.leaf 2)) (.leaf 3))
+        [⟨0, 2, false, [-2, 0, 2]⟩, ⟨1, 0, false, [0]⟩, ⟨2, 0, false, [0]⟩, ⟨3, 0, false, [0]⟩]).map
+        (fun s => (flatten s).sums) := by decide
 
 /-! ### formulating succeeds -/
 
